@@ -7,7 +7,17 @@ WRAPS = ["ares_tvnow", "ares_rand_bytes", "ares_generate_new_id",
          "ares_qcache_fetch", "ares_dns_record_duplicate_ex", "ares_dns_record_query_set_name",
          "ares_open_connection", "ares_cookie_apply", "ares_conn_flush", "ares_cookie_validate",
          "ares_close_connection", "ares_metrics_record", "ares_parse_into_addrinfo",
-         "ares_parse_ptr_reply_dnsrec", "ares_check_cleanup_conns"]
+         "ares_parse_ptr_reply_dnsrec", "ares_check_cleanup_conns", "ares_servers_update"]
+
+# the model follows the tree under test: ares_cancel() marks the queries it has taken
+# (fixes/C01-cancel-complete.patch) or not yet
+import os
+try:
+    import vlib
+    _hdr = open(os.path.join(vlib.REPO, "src", "lib", "ares_private.h")).read()
+    os.environ["C01_CANCELMARK"] = "1" if "cancelled;" in _hdr else "0"
+except Exception:
+    pass
 
 PROP = Property(
     pid="C01",
@@ -23,6 +33,6 @@ PROP = Property(
                   "clang 14 ASan/UBSan (use after free / double free of requests, connections, buffers on the implementation run)"],
     assumptions=["lifecycle code is hand-modelled (coq/Core/Lifecycle.v); the tie to the C code is the correspondence run on generated histories",
                  "user callbacks other than completion callbacks (socket state, server state, pending write) do not re-enter the channel",
-                 "callbacks do not call ares_destroy, ares_reinit or ares_process*; nested ares_set_servers* from callbacks is outside the statement (fixes/C01-setservers-from-callback.patch)"],
+                 "callbacks do not call ares_destroy or ares_process*"],
     rule="generated histories of the channel simulator (requests of all kinds, server behaviours, timeouts, cancel, destroy, reentrant callback scripts, socket failures, TCP); non-trivial = at least one request accepted; distinct by case text",
 )
